@@ -69,6 +69,8 @@ BINARIES = {
                  "harness": "crashkid"},
     "tsfmt": {"sources": ["harness/tsfmt.cpp", "engine/rc_driver.cpp"], "flavour": "asan", "libs": RC_LIBS,
               "harness": "tsfmt"},
+    "tscorder": {"sources": ["harness/tsc_order.cpp", "engine/rc_driver.cpp"], "flavour": "plain", "libs": RC_LIBS,
+                 "harness": "tscorder"},
 }
 
 # known-finding class -> binary that implements its probe
@@ -115,6 +117,7 @@ ENGINES = {
     "alloc": {"path": "harness/alloc_catalog.cpp", "serves": ["C11"], "kind": "allocation-interposed statement catalog (-O2, no sanitizers)"},
     "crashkid": {"path": "harness/crashkid.cpp", "serves": ["C07"], "kind": "fork/exec fault injection: generated child programs, all boundaries x termination kinds"},
     "tsfmt": {"path": "harness/tsfmt.cpp", "serves": ["C13"], "kind": "TimestampFormatter vs libc strftime"},
+    "tscorder": {"path": "harness/tsc_order.cpp", "serves": ["C05"], "kind": "TSC-clock (default clock source) ordering harness: harness thread = backend, real worker threads logging one operation at a time, real time relative to the grace period; measured precondition"},
     "check": {"path": "check", "serves": ["C%02d" % i for i in range(1, 21)],
               "kind": "python3 driver: builds harnesses from /repo's working tree, seeds, tiers, replays, known findings, evidence"},
 }
@@ -179,7 +182,11 @@ PROPERTIES = {
                             "queue reads OR a blocked worker OR an exited thread with unwritten statements); cases where some "
                             "statement missed the deadline are labelled precondition_violated and only checked for delivery"),
         "assumptions": ["grace == 0 and user clocks carry no ordering claim (documented)", "virtual clock strictly monotonic (+1 ns per read)"],
-        "jobs": _simjobs("C05", ["sim_bb4k", "sim_ub", "sim_bb1k"], quick_procs=3),
+        "jobs": _simjobs("C05", ["sim_bb4k", "sim_ub", "sim_bb1k"], quick_procs=3) + [
+            # the default clock source (TSC) cannot be virtualised: real time, measured precondition
+            {"bin": "tscorder", "params": {}, "realthread": True,
+             "quick": {"cases": 60, "procs": 8, "maxlen": 200},
+             "thorough": {"cases": 1500, "procs": 16, "maxlen": 200}}],
     },
     "C06": {
         "technique": "stateful property-based testing with a harness-owned backend schedule: oracle evaluated at the instant flush_log() returns; stall-state predicate for liveness",
@@ -347,7 +354,8 @@ PROPERTIES = {
         "rule": ("case = 1-3 back-to-back statements, each = (shape from the 167-shape catalog, runtime format string, generated "
                  "values); non-trivial = a statement with >= 1 variable-length argument AND (>= 2 arguments OR a spec); "
                  "distinct = FNV hash of the rendered case"),
-        "assumptions": ["fmtquill::format at the call site is the formatting reference", "default check_printable_char"],
+        "assumptions": ["fmtquill::format at the call site is the formatting reference",
+                        "check_printable_char is one of three configurations per process: default, a stricter/wider user predicate, off"],
         "jobs": [
             {"bin": "fmtcat",
              "quick": {"cases": 25000, "procs": 8, "maxlen": 300},
@@ -355,6 +363,14 @@ PROPERTIES = {
             {"bin": "fmtcat_drop",
              "quick": {"cases": 25000, "procs": 4, "maxlen": 300},
              "thorough": {"cases": 300000, "procs": 8, "maxlen": 400}},
+            # the CONFIGURED sanitisation: a user predicate stricter than the default for some plain ASCII characters and
+            # wider for '\t'; and the check switched off
+            {"bin": "fmtcat", "params": {"printable": "strict"},
+             "quick": {"cases": 15000, "procs": 3, "maxlen": 300},
+             "thorough": {"cases": 200000, "procs": 8, "maxlen": 400}},
+            {"bin": "fmtcat", "params": {"printable": "off"},
+             "quick": {"cases": 10000, "procs": 1, "maxlen": 300},
+             "thorough": {"cases": 100000, "procs": 4, "maxlen": 400}},
         ],
     },
     "C07": {
